@@ -208,13 +208,13 @@ def run(ctx):
         site = ctx.site('io_loop::IoLoop::run_io_loop')
         reg = [e for e in evs if e.kind == 'call' and e.callee == 'mio::Poll::reregister' and any(g[2] == 'loop' for g in e.guards)]
         rw = [e for e in reg if '(mio::Ready::readable() | mio::Ready::writable())' in S.show(e.term)]
-        ok = len(rw) == 1 and any(g[2] == 'if' and g[1] == 'then' and g[3] == '(io_loop::Inner::has_data_to_write(self.inner) && $m0)' for g in rw[0].guards) and \
+        ok = len(rw) == 1 and {'if(io_loop::Inner::has_data_to_write(self.inner))', 'if(have_written_to_socket)'} <= set(x for g in rw[0].guards for x in S.guard_strs(g)) and \
             S.show(rw[0].args[1]) == 'stream' and S.show(rw[0].args[2]) == 'io_loop::STREAM'
         r.check('rearm-writable', ok, site, built=[(S.show(e.term)[:160], [g[3] for g in e.guards if g[2] == 'if']) for e in reg],
                 expected='in the loop: if has_data_to_write() && have_written_to_socket { reregister(stream, STREAM, readable|writable, edge) }')
         entry = [e for e in evs if e.kind == 'call' and e.callee == 'mio::Poll::reregister' and not any(g[2] == 'loop' for g in e.guards)]
         gs = [sorted(x for g in e.guards for x in S.guard_strs(g)) for e in entry]
-        ok = len(entry) == 1 and gs[0] == sorted(['if(io_loop::Inner::has_data_to_write(self.inner))', 'if($m0)']) and \
+        ok = len(entry) == 1 and gs[0] == sorted(['if(io_loop::Inner::has_data_to_write(self.inner))', 'if(have_written_to_socket)']) and \
             '(mio::Ready::readable() | mio::Ready::writable())' in S.show(entry[0].term) and S.show(entry[0].args[1]) == 'stream' and S.show(entry[0].args[2]) == 'io_loop::STREAM' and \
             not [x for x in evs if x.idx < entry[0].idx and x.kind in ('ret', 'try')]
         r.check('rearm-at-entry', ok, site, built=[(S.show(e.term)[:160], g) for e, g in zip(entry, gs)],
